@@ -55,6 +55,7 @@ type State struct {
 	dead       bool
 	freshRefs  []string
 	private    []*Pointer // heap cells of this activation tree no callee can reach (see privateAlloc): survive callee frames
+	privMaps   []privMap  // maps made by this activation tree whose reference never leaves it (see privateMap)
 	trace      []string
 	curBlock   *ssa.BasicBlock
 	specHeap   *specInst // non-nil while evaluating a spec function body: heap arrays are formal parameters
@@ -112,6 +113,7 @@ func (st *State) clone() *State {
 	n.notes = append([]string(nil), st.notes...)
 	n.freshRefs = append([]string(nil), st.freshRefs...)
 	n.private = append([]*Pointer(nil), st.private...)
+	n.privMaps = append([]privMap(nil), st.privMaps...)
 	n.trace = append([]string(nil), st.trace...)
 	return n
 }
@@ -688,18 +690,121 @@ func refLeaf(l Leaf) bool {
 // its own deferred / directly called closures) and returns the action that writes the values back after a havoc:
 // no callee can have a pointer to them, so no frame - however wide - covers them.
 func (x *Exec) savePrivate(st *State) func() {
-	if len(st.private) == 0 {
+	if len(st.private) == 0 && len(st.privMaps) == 0 {
 		return func() {}
 	}
 	vals := make([]*Value, len(st.private))
 	for i, p := range st.private {
 		vals[i] = x.load(st, p, p.Root)
 	}
+	// private maps: remember the inner arrays (presence bits and every value leaf) of each map object
+	type savedArr struct{ key, sort, ref, inner string }
+	var saved []savedArr
+	for _, pm := range st.privMaps {
+		dk, vk := mapKeys(pm.mt)
+		keys := [][2]string{{dk, "Bool"}}
+		for _, l := range leaves(pm.mt.Elem()) {
+			keys = append(keys, [2]string{vk + "|" + l.Path, l.Sort})
+		}
+		for _, ks := range keys {
+			a := x.heapArr(st, ks[0], ks[1])
+			in := x.fresh(st, "privmap", fmt.Sprintf("(Array Int %s)", ks[1]))
+			st.assume(fmt.Sprintf("(= %s (select %s %s))", in, a, pm.ref))
+			saved = append(saved, savedArr{ks[0], ks[1], pm.ref, in})
+		}
+	}
 	return func() {
 		for i, p := range st.private {
 			x.store(st, p, vals[i])
 		}
+		for _, sv := range saved {
+			a := x.heapArr(st, sv.key, sv.sort)
+			x.setHeapArr(st, sv.key, sv.sort, fmt.Sprintf("(store %s %s %s)", a, sv.ref, sv.inner))
+		}
 	}
+}
+
+type privMap struct {
+	ref string
+	mt  *types.Map
+}
+
+var privateMapMemo = map[*ssa.MakeMap]bool{}
+
+// privateMap: the map made here is only ever stored into non-escaping local variables of the same function, and every
+// load of those variables is used as the operand of a map update, lookup, delete, len or range - so no callee (and no
+// closure) can hold a reference to it.
+func privateMap(mk *ssa.MakeMap) bool {
+	if r, ok := privateMapMemo[mk]; ok {
+		return r
+	}
+	ok := mk.Referrers() != nil
+	if ok {
+		for _, ref := range *mk.Referrers() {
+			switch u := ref.(type) {
+			case *ssa.DebugRef:
+			case *ssa.MapUpdate:
+				ok = ok && u.Map == ssa.Value(mk) && u.Key != ssa.Value(mk) && u.Value != ssa.Value(mk)
+			case *ssa.Lookup:
+				ok = ok && u.X == ssa.Value(mk)
+			case *ssa.Store:
+				a, isAlloc := u.Addr.(*ssa.Alloc)
+				ok = ok && u.Val == ssa.Value(mk) && isAlloc && !a.Heap && mapLocalOnly(a)
+			default:
+				ok = false
+			}
+		}
+	}
+	privateMapMemo[mk] = ok
+	return ok
+}
+
+func mapLocalOnly(a *ssa.Alloc) bool {
+	if a.Referrers() == nil {
+		return false
+	}
+	for _, ref := range *a.Referrers() {
+		switch u := ref.(type) {
+		case *ssa.DebugRef:
+		case *ssa.Store:
+			if u.Addr != ssa.Value(a) {
+				return false
+			}
+			if _, isMk := u.Val.(*ssa.MakeMap); !isMk {
+				if c, isC := u.Val.(*ssa.Const); !isC || !c.IsNil() {
+					return false
+				}
+			}
+		case *ssa.UnOp:
+			if u.Op != token.MUL || u.Referrers() == nil {
+				return false
+			}
+			for _, lr := range *u.Referrers() {
+				switch w := lr.(type) {
+				case *ssa.DebugRef:
+				case *ssa.MapUpdate:
+					if w.Map != ssa.Value(u) || w.Key == ssa.Value(u) || w.Value == ssa.Value(u) {
+						return false
+					}
+				case *ssa.Lookup:
+					if w.X != ssa.Value(u) {
+						return false
+					}
+				case *ssa.Range:
+				case *ssa.Call:
+					b, isB := w.Call.Value.(*ssa.Builtin)
+					if !isB || (b.Name() != "len" && b.Name() != "delete") {
+						return false
+					}
+				default:
+					return false
+				}
+			}
+		default:
+			return false
+		}
+	}
+	return true
 }
 
 var privateMemo = map[*ssa.Alloc]bool{}
